@@ -15,12 +15,11 @@
 from __future__ import annotations
 
 import ast
-import copy
 import math
 from fractions import Fraction
 from typing import Any, Callable, Dict, List, Optional, Tuple
 
-from .polyalg import Algebra, AlgebraError, P, Poly, Vec, add, mul, neg, var
+from .polyalg import Algebra, AlgebraError, P, Poly, Vec, add, mul, var
 
 _NUMF: Dict[str, Callable[..., float]] = {
     "sin": math.sin,
@@ -237,31 +236,6 @@ class NotAThreshold(Exception):
     pass
 
 
-def _comparisons(test: ast.AST, positive: bool = True) -> List[Tuple[ast.AST, ast.AST]]:
-    """[(small side, big side)] of the comparisons the condition is built from (and / or / not, chains)."""
-    if isinstance(test, ast.BoolOp):
-        out: List[Tuple[ast.AST, ast.AST]] = []
-        for v in test.values:
-            out += _comparisons(v, positive)
-        return out
-    if isinstance(test, ast.UnaryOp) and isinstance(test.op, ast.Not):
-        return _comparisons(test.operand, not positive)
-    if isinstance(test, ast.Compare):
-        out = []
-        left = test.left
-        for op, right in zip(test.ops, test.comparators):
-            if isinstance(op, (ast.Lt, ast.LtE)):
-                pair = (left, right)
-            elif isinstance(op, (ast.Gt, ast.GtE)):
-                pair = (right, left)
-            else:
-                raise NotAThreshold(f"`{ast.unparse(test)[:60]}` is not an order comparison")
-            out.append(pair if positive else (pair[1], pair[0]))
-            left = right
-        return out
-    raise NotAThreshold(f"`{ast.unparse(test)[:60]}` is not a comparison")
-
-
 _INC_WRAPPERS = {
     # f increasing on the range of its argument here:  f(s) < b  <=>  s < f^-1(b)
     "arcsin": math.sin,
@@ -277,27 +251,29 @@ _INC_WRAPPERS = {
 }
 
 
-def guard_atoms(test: ast.AST, env: Dict[str, Any], alg: NumAlgebra, defs: Optional[Dict[str, ast.AST]] = None) -> List[Dict[str, Any]]:
-    """Facts `Q < c` the condition consists of: [{'monomial': {symbol: exponent}, 'c': float, 'text': str}] (Q may be
-    empty: a comparison of two numbers, 'holds' tells its truth)."""
-    atoms: List[Dict[str, Any]] = []
+def guard_tree(test: ast.AST, env: Dict[str, Any], alg: NumAlgebra, defs: Optional[Dict[str, ast.AST]] = None) -> Tuple:
+    """The condition as a tree  ('or' | 'and', [children])  /  ('atom', fact)  with fact = {'monomial': {symbol: exponent},
+    'c': float, 'text': str}: "Q < c" for a Laurent monomial Q in positive symbols.  Special facts: 'holds' (a comparison of
+    two numbers, with its truth), 'never' (a norm below a non-positive number).  `not` is pushed inwards, chains are split,
+    `min(..) < c` is an `or`, `max(..) < c` an `and`, increasing wrappers are inverted on the constant side."""
     defs = defs or {}  # definitions of locals the algebra could not express (e.g. `worst = min(s1, s2)`): looked through
 
-    def add_atom(small: ast.AST, big: ast.AST, inv: List[Callable[[float], float]], text: str) -> None:
-        # look through min/max and increasing wrappers on the small side
+    def leaf(small: ast.AST, big: ast.AST, inv: List[Callable[[float], float]], text: str) -> Tuple:
         if isinstance(small, ast.Call) and not small.keywords:
             fn = _fname(small)
             if fn in ("min", "max") and small.args:
                 xs = small.args[0].elts if len(small.args) == 1 and isinstance(small.args[0], (ast.List, ast.Tuple)) else small.args
-                for x in xs:
-                    add_atom(x, big, inv, text)
-                return
+                return ("or" if fn == "min" else "and", [leaf(x, big, inv, text) for x in xs])
             if fn in _INC_WRAPPERS and len(small.args) == 1:
-                add_atom(small.args[0], big, inv + [_INC_WRAPPERS[fn]], text)
-                return
+                return leaf(small.args[0], big, inv + [_INC_WRAPPERS[fn]], text)
+        if isinstance(big, ast.Call) and not big.keywords and not inv:
+            fn = _fname(big)
+            # c < max(..) / c < min(..) with the quantities on the big side: the comparison fires when they are LARGE
+            if fn in ("min", "max") and big.args:
+                xs = big.args[0].elts if len(big.args) == 1 and isinstance(big.args[0], (ast.List, ast.Tuple)) else big.args
+                return ("and" if fn == "min" else "or", [leaf(small, x, inv, text) for x in xs])
         if isinstance(small, ast.Name) and small.id in env and isinstance(env[small.id], Opaque) and small.id in defs:
-            add_atom(defs[small.id], big, inv, text)
-            return
+            return leaf(defs[small.id], big, inv, text)
         try:
             s = alg.ev(small, env)
             b = alg.ev(big, env)
@@ -316,8 +292,16 @@ def guard_atoms(test: ast.AST, env: Dict[str, Any], alg: NumAlgebra, defs: Optio
                 raise NotAThreshold(f"`{text}`: {ex}")
             b = P(Fraction(v)) if v else {}
         if is_const(s) and is_const(b):
-            atoms.append({"monomial": {}, "c": const_value(b), "lhs": const_value(s), "holds": const_value(s) < const_value(b), "text": text})
-            return
+            return ("atom", {"monomial": {}, "c": const_value(b), "lhs": const_value(s), "holds": const_value(s) < const_value(b), "text": text})
+        if is_const(s) and const_value(s) <= 0 and len(b) == 1:
+            ((mb0, cb0),) = b.items()
+            if cb0 > 0 and mb0 and all(v in alg.POS for v, _ in mb0):
+                # a non-positive number below a norm: always true
+                return ("atom", {"monomial": {}, "c": math.inf, "lhs": const_value(s), "holds": True, "text": text})
+        if is_const(b) and const_value(b) <= 0 and len(s) == 1:
+            ((ms, cs),) = s.items()
+            if cs > 0 and all(v in alg.POS for v, _ in ms):
+                return ("atom", {"monomial": dict(ms), "c": const_value(b), "never": True, "text": text})
         if len(s) != 1 or len(b) != 1:
             raise NotAThreshold(f"`{text}`: the compared quantities are not monomials in norms (a sum cannot be bounded here)")
         ((ms, cs),) = s.items()
@@ -326,20 +310,54 @@ def guard_atoms(test: ast.AST, env: Dict[str, Any], alg: NumAlgebra, defs: Optio
             if not all(v in alg.POS for v, _ in m):
                 raise NotAThreshold(f"`{text}`: the compared quantity is not a product of norms")
         if cs <= 0 or cb <= 0:
-            # a non-positive bound on a norm: never true (or always, when on the other side)
-            atoms.append({"monomial": dict(ms), "c": float(cb / cs) if cs else math.inf, "text": text, "sign": (float(cs), float(cb))})
-            return
+            raise NotAThreshold(f"`{text}`: sign of the compared quantities")
         mono: Dict[str, int] = {}
         for v, e in ms:
             mono[v] = mono.get(v, 0) + e
         for v, e in mb:
             mono[v] = mono.get(v, 0) - e
         mono = {v: e for v, e in mono.items() if e}
-        atoms.append({"monomial": mono, "c": float(cb / cs), "text": text})
+        return ("atom", {"monomial": mono, "c": float(cb / cs), "text": text})
 
-    for small, big in _comparisons(test):
-        add_atom(small, big, [], f"{ast.unparse(small)[:40]} < {ast.unparse(big)[:40]}")
-    return atoms
+    def node(t: ast.AST, positive: bool) -> Tuple:
+        if isinstance(t, ast.BoolOp):
+            is_or = isinstance(t.op, ast.Or)
+            return ("or" if is_or == positive else "and", [node(v, positive) for v in t.values])
+        if isinstance(t, ast.UnaryOp) and isinstance(t.op, ast.Not):
+            return node(t.operand, not positive)
+        if isinstance(t, ast.Compare):
+            leaves = []
+            left = t.left
+            for op, right in zip(t.ops, t.comparators):
+                if isinstance(op, (ast.Lt, ast.LtE)):
+                    pair = (left, right)
+                elif isinstance(op, (ast.Gt, ast.GtE)):
+                    pair = (right, left)
+                else:
+                    raise NotAThreshold(f"`{ast.unparse(t)[:60]}` is not an order comparison")
+                if not positive:
+                    pair = (pair[1], pair[0])
+                leaves.append(leaf(pair[0], pair[1], [], f"{ast.unparse(pair[0])[:40]} < {ast.unparse(pair[1])[:40]}"))
+                left = right
+            if len(leaves) == 1:
+                return leaves[0]
+            return ("and" if positive else "or", leaves)
+        raise NotAThreshold(f"`{ast.unparse(t)[:60]}` is not a comparison")
+
+    return node(test, True)
+
+
+def tree_atoms(tree: Tuple) -> List[Dict[str, Any]]:
+    if tree[0] == "atom":
+        return [tree[1]]
+    out: List[Dict[str, Any]] = []
+    for c in tree[1]:
+        out += tree_atoms(c)
+    return out
+
+
+def guard_atoms(test: ast.AST, env: Dict[str, Any], alg: NumAlgebra, defs: Optional[Dict[str, ast.AST]] = None) -> List[Dict[str, Any]]:
+    return tree_atoms(guard_tree(test, env, alg, defs))
 
 
 def classify(mono: Dict[str, int], quantities: Dict[str, Tuple[str, Tuple[int, ...]]], alg: Algebra) -> Tuple[str, str]:
